@@ -521,8 +521,23 @@ def c08(req, ra, ctr):
             want = {d['fn'] for d in ds if p[0] in [q[0] for q in d['params'] if q[1] in ('po', 'pk', 'ko')]}
             got = set(src.get(p[0], ()))
             if got != want:
-                fails.append('inexact-sources: sources[%s] = %s but the inputs declaring it are %s, for %s' % (
-                    p[0], sorted(got), sorted(want), engine.line(req)))
+                key = 'inexact-sources'
+                if op == 'merge' and len(ds) >= 3 and got < want:
+                    # finding D45: the fold dropped this (optional) parameter at an earlier step and a later input brought
+                    # it back: the callables merged before the drop are not credited.  Decided on the real code: some
+                    # proper prefix of the inputs that contains a declaring input merges to a signature without the name.
+                    dropped = False
+                    for j in range(2, len(ds)):
+                        if not any(p[0] in [q[0] for q in d['params']] for d in ds[:j]):
+                            continue
+                        sub = engine.real(('merge', tuple(ds[:j])))
+                        if sub[0] == 'ok' and core.NAMES.id(p[0]) not in [q[0] for q in sub[1]]:
+                            dropped = True
+                            break
+                    if dropped:
+                        key = 'inexact-sources-dropped-in-fold'
+                fails.append('%s: sources[%s] = %s but the inputs declaring it are %s, for %s' % (
+                    key, p[0], sorted(got), sorted(want), engine.line(req)))
     # depths
     if op == 'merge':
         want_d = {f: 0 for f in fns}
